@@ -47,6 +47,10 @@ FIXED = [
     # w: until the parents have queued their children; then a wake-up sends the third worker sweeping)
     ("pool", "w=3,g=16,l=1,steal=1,bal=-1,hold=1,idoff=127,fin=dtor,prog=i.e1.e1.w.u.g"),
     ("pool", "w=4,g=16,l=1,steal=1,bal=-1,hold=1,idoff=126,fin=dtor,prog=i.e1.e1.e1.w.u.g_x"),
+    # stop() / the destructor begins while a child still sits in its parent's local queue and only the balancer
+    # (in its sleep when _running flips) can move it: its last sweep must still deliver the task
+    ("pool", "w=2,g=16,l=1,steal=0,bal=400,hold=1,fin=dtor,prog=i.e1.w.x"),
+    ("pool", "w=2,g=16,l=2,steal=0,bal=300,hold=1,fin=dtor,prog=i.e2.w_y"),
     ("pool", "w=1,g=16,l=1,steal=0,bal=-1,fin=dtor,prog=e3.g"),
     ("pool", "w=2,g=16,l=1,steal=0,bal=-1,fin=dtor,prog=e32_s.x"),
     ("pool", "w=2,g=0,l=1,steal=1,bal=-1,fin=dtor,prog=e.e.g_s.s"),
